@@ -34,7 +34,9 @@ LEVEL_TEXT = ('Coq theorems over an executable Gallina model of the capability s
               'rule, case-insensitivity, refinement of a readable decision-list spec for all three ignore* flags and both members of a '
               '(capability, anti-capability) pair; the answer depends neither on the spelling of the asked channel name nor on the one it '
               'was stored under (channel table = IrcDict over str.lower, refuted for a table keyed by str.lower alone); the set invariant '
-              'db_ok holds after EVERY history of add / remove edits; checkCapabilities = all / any; the length bound of a channel name is '
+              'db_ok holds after EVERY history of add / remove edits; the effect and the frame of an edit of the account\'s set (a granted '
+              'capability holds, its revocation refuses it, and no history of edits moves the answer for a capability whose queried '
+              'elements -- itself, its inverse, owner, #chan,op and its inverse -- it does not touch); checkCapabilities = all / any; the length bound of a channel name is '
               'inclusive and names of exactly channellen characters take the channel branch of the decision list.  Tie: regenerated '
               'fold table / whitespace set / chantypes / fail-closed pin of ChannelsDictionary.channels, getChannel, setChannel, IrcDict.key / '
               'defaultOff + differential run of the extracted model against the real function on sampled databases.')
